@@ -435,7 +435,9 @@ def write_evidence(pid, tier, seed, wall, runs, table, n_oblig, n_ok, known_hit,
     ev = {
         'property_id': pid, 'tier': tier, 'seed': seed, 'level': meta.get('level', 'proof'),
         'coverage': {
-            'obligations': n_oblig, 'discharged': n_ok,
+            # obligations claimed as proved; refuted obligations listed as known findings are reported separately below
+            'obligations': n_oblig - len(known_hit), 'discharged': n_ok,
+            'refuted_known_findings': len(known_hit),
             'checker_cmd': meta.get('checker_cmd', 'goto-cc --function h; goto-instrument --dfcc h --enforce-contract f [--replace-call-with-contract g] --apply-loop-contracts; cbmc --bounds-check --pointer-check --div-by-zero-check --signed-overflow-check  |  z3/z3-new/cvc5 on generated SMT-LIB2'),
             'trusted_base': meta.get('trusted_base', []),
             'functions_under_contract': sorted(set(fns)),
